@@ -4412,6 +4412,167 @@ def r_to_expr(P, R):
 r_to_expr.NAME = 'R-FORMAT(to_expr model)'
 
 
+_GRAPH_MODEL = '''
+class MultiDiGraph:
+    def __init__(self):
+        self.nodes = {}
+        self.edges = []
+    def add_node(self, u, **attrs):
+        self.nodes.setdefault(u, {}).update(attrs)
+    def add_nodes_from(self, us, **attrs):
+        for u in us:
+            if isinstance(u, tuple):
+                self.add_node(u[0], **dict(attrs, **u[1]))
+            else:
+                self.add_node(u, **attrs)
+    def add_edge(self, u, v, key=None, **attrs):
+        self.nodes.setdefault(u, {})
+        self.nodes.setdefault(v, {})
+        self.edges.append((u, v, dict(attrs)))
+    def add_edges_from(self, es, **attrs):
+        for e in es:
+            d = dict(attrs)
+            if len(e) > 2:
+                d.update(e[-1])
+            self.add_edge(e[0], e[1], **d)
+    def __contains__(self, u):
+        return u in self.nodes
+    def __len__(self):
+        return len(self.nodes)
+    def __iter__(self):
+        return iter(self.nodes)
+    def has_node(self, u):
+        return u in self.nodes
+'''
+
+
+def to_nx_model(P, R):
+    """`dd.bdd.to_nx(bdd, roots)` interpreted against a model of the graph
+    class it fills (nodes with attributes, a list of attributed edges).
+    C18: the graph holds exactly the nodes below the roots, each with its
+    level; every node that is not the terminal has a `value=False` and a
+    `value=True` successor and nothing else; walking the graph from a root
+    with the complement marks gives the function of the root.  (An edge
+    recorded twice - the function does that for nodes shared by two roots
+    - is not held against it.)"""
+    import itertools
+    f = P.func('dd.bdd.to_nx')
+    gcls = ('class', ast.parse(_GRAPH_MODEL).body[0], None, dict())
+    lib = interp.Sym('networkx', {'MultiDiGraph': gcls,
+                                  'DiGraph': gcls})
+    stubs = ClassStubs(P, 'dd.bdd.BDD', extra={
+        'import_module': lambda m, c, a, k: lib})
+    resolver = interp.ModuleEnv(P, 'dd.bdd', stubs)
+    names = ['a', 'b', 'c']
+    rows = list(itertools.product((False, True), repeat=3))
+    tts = [tuple(bool(a and not b) for a, b, c in rows),
+           tuple(bool(b if a else c) for a, b, c in rows),
+           tuple(bool(a != c) for a, b, c in rows)]
+    ps = list(f.params)
+    problems = dict()
+    n = 0
+    try:
+        for order in (['a', 'b', 'c'], ['b', 'c', 'a']):
+            base, ext = _build_manager(order, tts, range(len(tts)))
+            rs = sorted(ext)
+            succ = base['self._succ']
+            for roots in ([rs[0]], [rs[0], -rs[1]], [rs[2], -rs[2]],
+                          [-rs[1]], [1], [rs[1], rs[2], rs[0]]):
+                n += 1
+                obj = _object_manager(copy.deepcopy(
+                    {k: v for k, v in base.items() if k != 'self'}))
+                out, _ = interp.run_function(
+                    f.node, {ps[0]: obj, ps[1]: list(roots)}, stubs,
+                    resolver)
+                what = f'order {order}, nodes {succ}: to_nx(roots={roots})'
+                g = out[1]
+                if out[0] != 'return' or not isinstance(g, interp.Sym) \
+                        or not g.attrs or 'nodes' not in g.attrs:
+                    problems.setdefault('raises', (
+                        f'{what}: {out[0]} {out[1]!r}'))
+                    continue
+                nodes, edges = g.attrs['nodes'], g.attrs['edges']
+                reach, todo = set(), [abs(r) for r in roots]
+                while todo:
+                    x = todo.pop()
+                    if x in reach:
+                        continue
+                    reach.add(x)
+                    if x != 1:
+                        todo += [abs(succ[x][1]), abs(succ[x][2])]
+                if set(nodes) != reach:
+                    problems.setdefault('nodes', (
+                        f'{what}: the graph has the nodes '
+                        f'{sorted(nodes)}; below the roots are '
+                        f'{sorted(reach)}'))
+                    continue
+                bad = [u for u in nodes
+                       if nodes[u].get('level') != succ[u][0]]
+                if bad:
+                    problems.setdefault('level', (
+                        f'{what}: node {bad[0]} is labelled '
+                        f'{nodes[bad[0]]}, its level is '
+                        f'{succ[bad[0]][0]}'))
+                    continue
+                arcs = dict()
+                for u, v, d in edges:
+                    arcs.setdefault(u, set()).add(
+                        (v, d.get('value'), bool(d.get('complement'))))
+                shape = None
+                for u in nodes:
+                    have = sorted(arcs.get(u, ()), key=repr)
+                    if u == 1:
+                        if have:
+                            shape = f'the terminal has the arcs {have}'
+                    elif sorted(x[1] for x in have) != [False, True] or \
+                            any(x[1] not in (False, True) or
+                                isinstance(x[1], int) and
+                                not isinstance(x[1], bool) for x in have):
+                        shape = (f'node {u} has the arcs {have}: not one '
+                                 'with value=False and one with value=True')
+                if shape:
+                    problems.setdefault('arcs', f'{what}: {shape}')
+                    continue
+                by_level = {k: v for k, v in enumerate(order)}
+
+                def walk(u, r):
+                    neg = False
+                    while u != 1:
+                        bit = r[names.index(by_level[nodes[u]['level']])]
+                        v, _, c = next(x for x in arcs[u] if x[1] is bit)
+                        neg ^= c
+                        u = v
+                    return not neg
+                for r_ in roots:
+                    got = tuple(walk(abs(r_), r) for r in rows)
+                    if got != _tt_of(base, abs(r_), names):
+                        problems.setdefault('function', (
+                            f'{what}: walking the graph from node '
+                            f'{abs(r_)} with its then / else arcs and '
+                            'complement marks does not give the function '
+                            f'of the node (arcs {arcs})'))
+                        break
+    except (interp.Unknown, KeyError, StopIteration) as e:
+        R.undecided('R-ROLE', f.qualname, 'graph model', str(e))
+        return None
+    for sub, msg in sorted(problems.items()):
+        R.violation('R-ROLE', f'to_nx-{sub}', f.qualname, 'to_nx', msg,
+                    unit=f.unit.rel, line=f.lineno)
+    if not problems:
+        R.holds('R-ROLE', f.qualname,
+                f'graph model ({n} exports): nodes below the roots with '
+                'their levels, one else and one then arc each, the '
+                'function recovered by walking the graph')
+    return n
+
+
+def r_to_nx(P, R):
+    n = to_nx_model(P, R)
+    if n is not None:
+        R.floor('R-ROLE exports of the graph model', n, 10)
+r_to_nx.NAME = 'R-ROLE(to_nx model)'
+
+
 def dot_model(P, R):
     """`dd.bdd._to_dot(roots, bdd)` interpreted (with `dd._utils.DotGraph`)
     on small managers: the graph it builds must show, for every node
